@@ -224,13 +224,14 @@ class odict(dict):
             self._keys.remove(key)
         return value
 
-    def popitem(self):
+    def popitem(self, last=True):
         """
         Remove and return last item (key, value) duple
+        If last is False remove and return first item instead
         If odict is empty raise KeyError
         """
         try:
-            key = self._keys[-1]
+            key = self._keys[-1 if last else 0]
         except IndexError:
             raise KeyError('Empty odict.')
         value = dict.__getitem__(self, key)
@@ -503,6 +504,15 @@ class modict(odict):
     def copy(self):
         return self.__class__(self)
 
+    def __reduce__(self):
+        """
+        Pickle and copy module support that keeps every value of every key.
+        (The inherited odict state is .items() which holds only the newest
+        value and the default dict reduce also replays .items() as setitems
+        which appends the newest value a second time.)
+        """
+        return (self.__class__, (self.allitems(), ))
+
     def get(self, key, default=None, index=-1, kind=None):
         """
         Return the most recent value for a key, that is, the last element
@@ -516,7 +526,7 @@ class modict(odict):
             to be returned.
         """
         try:
-            val = self[key][index]
+            val = super(modict, self).__getitem__(key)[index]
             return kind(val) if kind else val
         except Exception:
             pass
@@ -628,7 +638,7 @@ class modict(odict):
                 for k, v in a.iterallitems():
                     self.append(k, v)
             elif hasattr(a, 'get'): #positional arg is dictionary
-                for k, v in a.iteritems():
+                for k, v in a.items():
                     self.append(k, v)
             else: #positional arg is sequence of duples (k,v)
                 for k, v in a:
